@@ -190,7 +190,7 @@ for Atomic<'a, ItemType, BUFFER_SIZE, MAX_STREAMS> {
                 #[cfg(feature = "verif")] crate::verif::note(crate::verif::UNI_AFTER_PUBLISH_BEFORE_WAKE, len_after as u64);
                 #[cfg(feature = "verif")] crate::verif::point(crate::verif::UNI_AFTER_PUBLISH_BEFORE_WAKE);
                 if len_after <= MAX_STREAMS as u32 {
-                    self.streams_manager.wake_stream(len_after % MAX_STREAMS as u32);
+                    self.streams_manager.wake_stream(len_after - 1);
                 }
                 true
             }).unwrap_or(false)
